@@ -835,6 +835,28 @@ def r31_horizon(ctx, sc: SimCtx):
                         where=f'Simulator.{m}')
 
 
+    # ---- ... and on every accepted path: the method that stores the bound and the inclusiveness stores both whenever it returns normally (a
+    # store under a condition -- only on the first start of a replication -- lets a later command run with the flag of an earlier one)
+    for ci_, f_ in sc.sim_functions():
+        for fld in ('_run_until_time', '_run_until_including'):
+            sts = [a for a in walk_shallow(f_) if isinstance(a, (ast.Assign, ast.AnnAssign)) and getattr(a, 'value', None) is not None
+                   and any(is_self_attr(t, fld) for t in (a.targets if isinstance(a, ast.Assign) else [a.target]))]
+            if not sts or f_.name in ('__init__', 'initialize', 'cleanup', '__setstate__'):
+                continue
+            g_ = CFG(f_)
+            nodes_ = [g_.node_for(a) for a in sts]
+            if any(x is None for x in nodes_):
+                continue
+            skipped = g_.reaches(g_.entry, g_.exit, avoid=nodes_, labels_excluded=('exc', 'raise', 'reraise'))
+            ctx.ob('R3.1', f'{ci_.name}.{f_.name}:{fld}:every-accepted-path', not skipped,
+                   sample=f'{ci_.name}.{f_.name}: a normal exit without a store of {fld} is reachable: {skipped}')
+            if skipped:
+                ctx.finding('R3.1', f'{ci_.name}.{f_.name}:{fld}:not-on-every-path', ci_, sts[0],
+                            f'{ci_.name}.{f_.name} can accept a run command without storing `{fld}` (`{short(sts[0])}` is skipped on some accepting path): the run then '
+                            f'uses the value left by an earlier command -- a piece of a split run inherits the bound / inclusiveness of the piece before it',
+                            where=f'{ci_.name}.{f_.name}')
+
+
 def command_bound(sc: SimCtx, m):
     """(canonical text of the value stored in _run_until_time, constant stored in _run_until_including) by command m"""
     prog = sc.prog
